@@ -270,6 +270,48 @@ fn run_shapes() {
     emit(json!({"ev":"AsyncMismatch","refused":!msg.is_empty(),"cls":panics::classify(&msg).0,"orig_after":v == 2001 && p == 1}));
 }
 
+#[inline(never)]
+pub async fn af_u64(x: u64) -> u64 {
+    BODY[7].fetch_add(1, SeqCst);
+    x + 1
+}
+
+/// C09, async half: every ordered pair of output types through async_func! x async_return!
+fn run_async_pairs() {
+    panics::install_hook();
+    let flag = AtomicUsize::new(0);
+    let seven = 7u32;
+    macro_rules! pair {
+        ($t1:expr, $t2:expr, $fut:expr, $ty1:ty, $val:expr, $ty2:ty) => {{
+            let os0 = crate::interpose::N_MMAP.load(SeqCst) + crate::interpose::N_MPROTECT.load(SeqCst);
+            let r = std::panic::catch_unwind(std::panic::AssertUnwindSafe(|| {
+                let mut inj = in_lib(InjectorPP::new);
+                in_lib(|| inj.when_called_async(injectorpp::async_func!($fut, $ty1)).will_return_async(injectorpp::async_return!($val, $ty2)));
+                in_lib(|| drop(inj));
+            }));
+            crate::interpose::set_in_lib(false);
+            let msg = r.as_ref().err().map(|p| panics::payload_str(&**p)).unwrap_or_default();
+            let touched = crate::interpose::N_MMAP.load(SeqCst) + crate::interpose::N_MPROTECT.load(SeqCst) != os0;
+            emit(json!({"ev":"AsyncPair","t1":$t1,"t2":$t2,"verdict": if r.is_ok() { "accepted" } else { "refused" },
+                "cls":panics::classify(&msg).0,"touched_when_refused": r.is_err() && touched}));
+        }};
+    }
+    macro_rules! row {
+        ($t1:expr, $fut:expr, $ty1:ty) => {{
+            pair!($t1, "u32", $fut, $ty1, 1u32, u32);
+            pair!($t1, "u64", $fut, $ty1, 1u64, u64);
+            pair!($t1, "bool", $fut, $ty1, true, bool);
+            pair!($t1, "String", $fut, $ty1, String::from("s"), String);
+            pair!($t1, "()", $fut, $ty1, (), ());
+        }};
+    }
+    row!("u32", a2(0), u32);
+    row!("u64", af_u64(0), u64);
+    row!("bool", bool_fn(&seven), bool);
+    row!("String", a3(""), String);
+    row!("()", unit_fn(&flag), ());
+}
+
 pub fn run(script: &str, out: &str) {
     crate::events::open(out);
     let text = std::fs::read_to_string(script).expect("script");
@@ -279,7 +321,9 @@ pub fn run(script: &str, out: &str) {
         }
         let sc: Value = serde_json::from_str(line).expect("scenario json");
         SCENARIO.store(sc.get("id").and_then(|x| x.as_u64()).unwrap_or(0), SeqCst);
-        if s(&sc, "mode") == "shapes" {
+        if s(&sc, "mode") == "asyncpairs" {
+            child::run_logged(30, run_async_pairs);
+        } else if s(&sc, "mode") == "shapes" {
             child::run_logged(30, run_shapes);
         } else {
             child::run_logged(30, || run_seq(&sc));
